@@ -46,6 +46,7 @@ type run struct {
 	refused []bool // the last Leave of the channel was answered with an error
 	everJoined map[int]bool
 	feedCh  chan []byte
+	blockedBy string // which parked call ("j0", "l1") keeps the serve loop blocked
 	blocked bool // serve loop blocked behind a parked Join (hand-off or unclosed error reply)
 	nsync   int
 	outPos  int
@@ -311,8 +312,8 @@ func (x *run) act(a string) bool {
 		x.jid[c] = x.awaitPresence(occ(x.addrs[c]).String(), false)
 	case a[0] == 's':
 		c := num(1)
-		if c >= len(x.addrs) || x.jst[c] != "parked" {
-			return false
+		if c >= len(x.addrs) || x.jst[c] != "parked" || (x.blocked && x.blockedBy != "j"+strconv.Itoa(c)) {
+			return false // while the handler holds managedM for another call, this one could not finish
 		}
 		x.trace = append(x.trace, a)
 		x.jst[c] = "insel"
@@ -322,7 +323,9 @@ func (x *run) act(a string) bool {
 			if e, ok := x.wait(isEv(label, "ret:"), label+" return"); ok {
 				x.joinReturned(c, e)
 			}
-			x.blocked = false
+			if x.blockedBy == label {
+				x.blocked, x.blockedBy = false, ""
+			}
 			x.sync()
 		}
 	case a[0] == 'A' || a[0] == 'U':
@@ -354,7 +357,7 @@ func (x *run) act(a string) bool {
 				x.sync()
 			case reg && x.jst[c] == "parked":
 				x.jready[c] = "self"
-				x.blocked = true // the handler waits for the joiner to reach its select
+				x.blocked, x.blockedBy = true, "j"+strconv.Itoa(c) // the handler waits for the joiner to reach its select
 			default:
 				x.sync()
 				x.callbacks()
@@ -413,7 +416,7 @@ func (x *run) act(a string) bool {
 			}
 			x.sync()
 		} else if a[0] == 'E' {
-			x.blocked = true // the error reply stays open until the parked Join takes it
+			x.blocked, x.blockedBy = true, "j"+strconv.Itoa(c) // the error reply stays open until the parked Join takes it
 		}
 	case a[0] == 'L':
 		c := num(1)
@@ -433,7 +436,7 @@ func (x *run) act(a string) bool {
 		x.lid[c] = x.awaitPresence(occ(x.addrs[c]).String(), true)
 	case a[0] == 'l':
 		c := num(1)
-		if c >= len(x.addrs) || x.lst[c] != "parked" {
+		if c >= len(x.addrs) || x.lst[c] != "parked" || (x.blocked && x.blockedBy != "l"+strconv.Itoa(c)) {
 			return false
 		}
 		x.trace = append(x.trace, a)
@@ -446,7 +449,9 @@ func (x *run) act(a string) bool {
 			} else if x.tok[c] {
 				x.r.Fail("leave-returns", "leave-missed-unavailable-presence", x.lines(), fmt.Sprintf("the occupant's unavailable presence was processed before Leave of channel %d reached its select; Leave never returned", c))
 			}
-			x.blocked = false
+			if x.blockedBy == label {
+				x.blocked, x.blockedBy = false, ""
+			}
 			x.sync()
 		}
 	case strings.HasPrefix(a, "El"), strings.HasPrefix(a, "Xl"):
@@ -468,7 +473,7 @@ func (x *run) act(a string) bool {
 			}
 			x.sync()
 		} else if a[0] == 'E' {
-			x.blocked = true
+			x.blocked, x.blockedBy = true, "l"+strconv.Itoa(c)
 		}
 	case a == "I":
 		if x.blocked {
@@ -503,6 +508,10 @@ func (x *run) act(a string) bool {
 }
 
 func (x *run) epilogue() string {
+	if x.blocked && len(x.blockedBy) > 1 {
+		// first the call the serve loop is waiting for
+		x.act(map[byte]string{'j': "s", 'l': "l"}[x.blockedBy[0]] + x.blockedBy[1:])
+	}
 	for c := range x.addrs {
 		if x.jst[c] == "parked" {
 			x.act("s" + strconv.Itoa(c))
